@@ -63,7 +63,7 @@ CLAIMED = {
  "C17": ("one fresh interpreter per adversarial document under sys.monitoring logical step counting (PY_START + backward JUMP in picosvg code) with a budget linear in the reference-expanded size, under strace -f -e trace=openat,connect with planted canary files/addresses, plus a wall-clock backstop whose firing alone is inconclusive; returned documents validated against the C01 grammar; per-class reach floors from call counts",
          "Cyclic use/clip-path/gradient references (incl. chains leading into cycles), dangling references, malformed numbers, unsupported elements, deep nesting, wide acyclic use DAGs and DOCTYPE/entity attacks are each run to an outcome in {returned, raised, budget, killed}. Bounded-progress restatement of liveness; held-on-observed.",
          "Liveness restated as steps <= 60000*(expanded elements+20)+4e6; trusts strace for file/socket visibility.", "3/C17"),
- "C15": ("history + executable model: each operation history is run on live objects with no observation in between and compared with a shadow run that serialises and re-parses before every step and applies the in-place form of each step (canonical XML, exception step/type); copy-mode steps are checked for receiver immutability on freshly re-executed runs; in-place steps must return the receiver; divergences are attributed to the shortest diverging prefix",
+ "C15": ("history + executable model: each operation history is run on live objects with no observation in between and compared with a shadow run that serialises and re-parses before every step and applies the in-place form of each step (canonical XML, exception step/type); copy-mode steps are checked for receiver immutability on freshly re-executed runs; in-place steps must return the receiver; answers of the read-only queries (shapes, bounding_box, view_box, checkpicosvg, tolerance) must agree between live object and re-parsed document; divergences are attributed to the shortest diverging prefix",
          "All histories of length <= 2 over 51 steps on six documents (quick), all of length 3 on two documents plus random histories of length 4-8 on the corpus (thorough). Exhaustive on the enumerated sub-space, held-on-observed beyond.",
          "The model is fromstring(tostring()) between steps; canonical XML = infoset equality.", "3/C15"),
 }
